@@ -31,7 +31,7 @@ def run(job):
         ids=[pid]
     out=subprocess.run(['/verif/seeded_eval.sh',path]+ids,capture_output=True,text=True).stdout
     return job,out
-with concurrent.futures.ThreadPoolExecutor(3) as ex:
+with concurrent.futures.ThreadPoolExecutor(5) as ex:
     for job,out in ex.map(run,jobs):
         pid,x,path=job
         print('=====',pid,x); print(out.strip())
